@@ -36,6 +36,10 @@ CHECKS = {
             "DESIGN.md §3 C04",
             "All byte strings of length 0..3; every packet of a corpus of valid sessions (all schemes, signalling modes, cenc, empty object, close session) x every header byte x substitutions (all 255 in the thorough tier) and every truncation, delivered in context; products of boundary values of every EXT_FTI field x payload-id field x payload length per scheme and of version/flags/C/S/O/H/HDR_LEN/HEL; crafted FDT instances (OTI attribute products at File and instance level, TOI/length/Expires/Content-Encoding products, every truncation of a valid instance, malformed documents). Every call must return Ok/Err (catch_unwind, overflow checks and debug assertions on), within the watchdog, under a 64 MB heap ceiling with a 64 kB cache limit, and a valid session pushed after any rejected packet must still be delivered.",
             "Trusted: counting allocator and watchdog; the quantifier's random mutation sequences are sampling and are not used (stated in the evidence); histories longer than the corpus sessions are outside the bound."),
+    "C09": ("model_checking", "stateless deviation-bounded exploration of environment answers (builder decision, open/write failures at every call, receiver drop and timeout+cleanup after every packet) on the real receiver", "seqx",
+            "DESIGN.md §3 C09",
+            "For every recorded session x 7 delivery orders (plus harness-written FDTs without OTI so that the OTI arrives in-band after attachment) the choice-sequence explorer enumerates every combination of at most 1 (quick) / 2 (thorough) non-default environment answers; on every execution each writer's call log is run through the typestate automaton (open once, writes, one terminal, nothing after; only a terminal call after a failed open), writes must form a prefix of the content, complete only with the full content and no failed write, and after the receiver is dropped every opened writer is terminated.",
+            "Trusted: monitoring writer; deviation bound; packet orders are 7 fixed shapes per session (all orders are C03's job)."),
 }
 
 NOT_YET = {}
